@@ -33,6 +33,8 @@ FEATURES = ('comment', 'comment_bs', 'continuation', 'triple_under', 'raw_bs_nl'
             'semicolon', 'exotic')
 LAMBDAS = ('single', 'two_same_sig', 'two_diff_sig', 'semicolon_diff', 'semicolon_same', 'nested_outer', 'nested_inner', 'spanning',
            'default_arg', 'call_arg', 'in_function', 'wraps_wrapper', 'wraps_method')
+REDEFS = ('same_size_same_mtime', 'same_size_newer', 'longer', 'shorter', 'moved_down')
+HANDOVER = ('nested_def_defaults', 'nested_lambda_defaults', 'nested_kwonly_defaults', 'own_defaults_only', 'two_levels')
 _S = {'tier': 'quick'}
 
 
@@ -53,6 +55,16 @@ def items(tier, seed):
   for ind in INDENTS:
     for lam in LAMBDAS:
       yield ('lam', ind, lam)
+  # the file is rewritten and the module re-executed between two recoveries (the second must see the new definition)
+  for ind in INDENTS:
+    for variant in REDEFS:
+      for kind in ('def', 'lambda'):
+        yield ('redef', ind, variant, kind)
+  # the tree a transpiler receives (GenericTranspiler hand-over): the recovered tree with the defaults of the converted
+  # function itself blanked, nothing else touched
+  for ind in INDENTS:
+    for shape in HANDOVER:
+      yield ('handover', ind, shape)
 
 
 def feature_lines(f, I, uid):
@@ -284,12 +296,142 @@ def check_item(item, uid, corrupt=False):
   return src, viol, 'ok'
 
 
+def redef_sources(item, uid):
+  _, ind, variant, kind = item
+  I = INDENTS[ind]
+  a, b = uid, uid + 1          # same number of digits (uid is a multiple of 100)
+  if kind == 'def':
+    tmpl = 'def target(x):\n' + I + 'y = x + %d\n' + I + 'return y * 2\n\n\nTARGET = target\n'
+  else:
+    tmpl = 'TARGET = lambda x: (x + %d) * 2\n'
+  first = tmpl % a
+  second = tmpl % b
+  if variant == 'longer':
+    second = second.replace('x + ', 'x   +   ')
+  elif variant == 'shorter':
+    first = first.replace('x + ', 'x   +   ')
+  elif variant == 'moved_down':
+    second = '# a new first line\n\n' + second
+  return first, second, a, b
+
+
+def check_redef(item, uid):
+  """Recover the definition, rewrite the module file, execute it again, recover again."""
+  from malt.pyct import parser, errors
+  import time
+  name = 'c15redef_%d' % uid
+  first, second, a, b = redef_sources(item, uid)
+  variant = item[2]
+  mod, path = load_module(first, name)
+  viol = []
+  try:
+    st = os.stat(path)
+    try:
+      got1, _ = parser.parse_entity(mod.TARGET, ())
+    except errors.UnsupportedLanguageElementError:
+      return first + second, [], 'unsupported'
+    if not has_const(got1, a):
+      viol.append(('tree-differs', 'first recovery does not contain the constant %d of the definition' % a))
+    with open(path, 'w', encoding='utf-8') as f:
+      f.write(second)
+    if variant == 'same_size_same_mtime':
+      os.utime(path, ns=(st.st_atime_ns, st.st_mtime_ns))
+    elif variant == 'same_size_newer':
+      os.utime(path, ns=(st.st_atime_ns, st.st_mtime_ns + 5 * 10 ** 9))
+    code = compile(second, path, 'exec')
+    exec(code, mod.__dict__)  # pylint:disable=exec-used
+    try:
+      got2, _ = parser.parse_entity(mod.TARGET, ())
+    except errors.UnsupportedLanguageElementError:
+      return first + second, viol, 'unsupported'
+    except Exception as e:  # pylint:disable=broad-except
+      return first + second, viol + [('stale-source', 'second recovery raised %s: %s' % (type(e).__name__, str(e).split('\n')[0][:120]))], 'error'
+    if not has_const(got2, b) or has_const(got2, a):
+      viol.append(('stale-source', 'after the file was rewritten (%s) and executed again, the recovered tree still is the old definition' % variant))
+    else:
+      tree = ast.parse(second)
+      want = [n for n in ast.walk(tree) if isinstance(n, (ast.FunctionDef, ast.Lambda)) and has_const(n, b)][0]
+      d = c17.struct_diff(want, got2)
+      if d:
+        viol.append(('tree-differs', 'second recovery differs from the new definition: %s' % d))
+  finally:
+    unload(name, path)
+  return first + second, viol, 'ok'
+
+
+def handover_source(item, uid):
+  _, ind, shape = item
+  I = INDENTS[ind]
+  L = ['def target(a, b=%d, *, c=3):' % uid]
+  if shape == 'nested_def_defaults':
+    L += [I + 'def inner(x, i=a, j=b):', I + I + 'return x + i + j', I + 'return inner(1)']
+  elif shape == 'nested_lambda_defaults':
+    L += [I + 'lam = lambda q=a, r=b: q + r', I + 'return lam()']
+  elif shape == 'nested_kwonly_defaults':
+    L += [I + 'def inner(x, *, scale=c, off=None):', I + I + 'return x * scale', I + 'lam = lambda *, k=a: k', I + 'return inner(1) + lam()']
+  elif shape == 'own_defaults_only':
+    L += [I + 'return a + b + c']
+  else:
+    L += [I + 'def inner(x, i=a):', I + I + 'def innermost(y, j=i, *, k=b):', I + I + I + 'return y + j + k', I + I + 'return innermost(x)',
+          I + 'return inner(1)']
+  return '\n'.join(L) + '\n\n\nTARGET = target\n'
+
+
+def check_handover(item, uid):
+  from malt.pyct import transpiler
+  import copy
+  src = handover_source(item, uid)
+  name = 'c15hand_%d' % uid
+  mod, path = load_module(src, name)
+  viol = []
+  seen = []
+
+  class Capture(transpiler.PyToPy):
+    def get_caching_key(self, ctx):
+      return 0
+
+    def get_extra_locals(self):
+      return {}
+
+    def transform_ast(self, node, ctx):
+      seen.append(copy.deepcopy(node))
+      return node
+  try:
+    try:
+      new_f, _, _ = Capture().transform(mod.TARGET, None)
+    except Exception as e:  # pylint:disable=broad-except
+      return src, [('handover-error', 'identity transpiler raised %s: %s' % (type(e).__name__, str(e).split('\n')[0][:160]))], 'error'
+    want = ast.parse(src).body[0]
+    none = lambda: ast.Constant(value=None)
+    want.args.defaults = [none() for _ in want.args.defaults]
+    want.args.kw_defaults = [None if d is None else none() for d in want.args.kw_defaults]
+    d = c17.struct_diff(want, seen[0]) if seen else 'transform_ast was not called'
+    if d:
+      viol.append(('handover-differs', 'tree handed to transform_ast differs from the definition (own defaults blanked): %s' % d))
+    r0 = mod.TARGET(5)
+    try:
+      r1 = new_f(5)
+    except Exception as e:  # pylint:disable=broad-except
+      r1 = 'raises %s' % type(e).__name__
+    if r0 != r1:
+      viol.append(('handover-behaviour', 'identity conversion returns %r, the original %r' % (r1, r0)))
+  finally:
+    unload(name, path)
+    util.purge_generated()
+  return src, viol, 'ok'
+
+
 def stable_id(item):
   import hashlib
   return int(hashlib.sha1(repr(item).encode()).hexdigest()[:6], 16) * 100 + 100000
 
 
 def check(item):
+  if item[0] in ('redef', 'handover'):
+    src, viol, status = (check_redef if item[0] == 'redef' else check_handover)(item, stable_id(item))
+    out = [util.V('%s|%s' % (kind, '|'.join(item)), '%s: %s\nmodule source:\n%s' % (kind, msg, src), item, source=src) for kind, msg in viol]
+    return {'viol': out, 'n': {'evaluations': 2, 'layouts': 1, 'unsupported_lambda_errors': int(status == 'unsupported')},
+            'outcome': src + status, 'nontrivial': src, 'sample': {'item': repr(item), 'source': src[-400:]}}
   src, viol, status = check_item(item, stable_id(item))
   out = []
   for kind, msg in viol:
